@@ -97,7 +97,7 @@ class LtlAstParserVisitor(LtlParserVisitor):
                     except AttributeError as err:
                         raise RTAMTException(err)
             except KeyError:
-                if id_tail:
+                if id_tail or id != id_head:
                     raise RTAMTException('{0} refers to undeclared variable {1} of unknown type'.format(id, id_head))
                 else:
                     self.declare_var(id, 'float')
